@@ -32,7 +32,15 @@ def main():
                 continue
             D = D or Discharger(F, fn)
             g = guard_facts(D, fn, s.bb)
+            # keep the guards that are about a value the site's own expression (or its expect message) mentions: a comparison that merely
+            # happens to dominate the site is not part of the argument and would only make the entry fragile
+            import re
+            words = set(re.findall(r"[A-Za-z_][A-Za-z_0-9]*", s.snip or ""))
+            g = {nm: iv for nm, iv in g.items() if re.findall(r"[A-Za-z_][A-Za-z_0-9]*", nm.replace("len(", "").replace("val(", ""))[0] in words}
             if not g:
+                if "guards" in e and "--refresh" in sys.argv:
+                    del e["guards"]
+                    ch += 1
                 continue
             n += 1
             if "guards" in e and "--refresh" not in sys.argv:
